@@ -6,6 +6,7 @@ lock-step with a dict reference model; every canonical state is attached to both
 every modelled name must reach exactly its function, every near-miss / private / dunder / non-callable name must get -32601.
 """
 import enum
+import functools
 import itertools
 import json
 
@@ -27,6 +28,20 @@ def f2():
 
 def f3():
     return 'f3'
+
+
+class _CountingDecorator:
+    """a class based decorator that still binds like a function (descriptor)"""
+    def __init__(self, fn):
+        self.fn = fn
+        self.__name__ = fn.__name__
+        self.__doc__ = fn.__doc__
+
+    def __call__(self, *args, **kwargs):
+        return self.fn(*args, **kwargs)
+
+    def __get__(self, obj, objtype=None):
+        return functools.partial(self.__call__, obj) if obj is not None else self
 
 
 class Auditable:
@@ -65,6 +80,15 @@ class V(Auditable, BaseV):
     def __secret__(self):
         return 'V.__secret__'
 
+    # public members that are callable without being plain functions: a method behind functools.lru_cache, one behind a class based decorator
+    @functools.lru_cache(maxsize=None)
+    def cached(self):
+        return 'V.cached'
+
+    @_CountingDecorator
+    def counted(self):
+        return 'V.counted'
+
 
 class BaseW(pjrpc.server.ViewMixin):
     def inh(self):
@@ -80,7 +104,7 @@ class W(BaseW):
 MethodRegistry().view(BaseW)      # the base view is in use elsewhere first
 
 FUNCS = dict(f1=f1, f2=f2, f3=f3)
-VIEW_PUBLIC = {'pub1': 'V.pub1', 'pub2': 'V.pub2', 'st': 'V.st', 'inh': 'V.inh', 'audit': 'V.audit'}
+VIEW_PUBLIC = {'pub1': 'V.pub1', 'pub2': 'V.pub2', 'st': 'V.st', 'inh': 'V.inh', 'audit': 'V.audit', 'cached': 'V.cached', 'counted': 'V.counted'}
 VIEW_FORBIDDEN = ['_hidden', '__secret__', 'data', '__methods__', '__init__', '__class__', '_audit_private']
 PREFIXES = [None, 'a', 'a.b']
 
